@@ -560,13 +560,18 @@ func (r *rewriter) rewrite(f *ast.File) *ast.File {
 				cv := r.tmp("c")
 				body := cl.Body
 				switch st := cl.Comm.(type) {
-				case *ast.ExprStmt: // case <-ch:   (already rewritten to ch.Recv())
+				case *ast.ExprStmt: // case <-ch: (already rewritten to ch.Recv()) or case ch <- v: (already ch.Send(v))
 					ce, ok := st.X.(*ast.CallExpr)
 					if !ok {
 						fail("%s: unsupported select case", r.pos(x))
 					}
-					ch := ce.Fun.(*ast.SelectorExpr).X
-					pre = append(pre, &ast.AssignStmt{Lhs: []ast.Expr{cv}, Tok: token.DEFINE, Rhs: []ast.Expr{call(vsel("Case"), ch)}})
+					se := ce.Fun.(*ast.SelectorExpr)
+					ch := se.X
+					if se.Sel.Name == "Send" && len(ce.Args) == 1 {
+						pre = append(pre, &ast.AssignStmt{Lhs: []ast.Expr{cv}, Tok: token.DEFINE, Rhs: []ast.Expr{call(vsel("SendCase"), ch, ce.Args[0])}})
+					} else {
+						pre = append(pre, &ast.AssignStmt{Lhs: []ast.Expr{cv}, Tok: token.DEFINE, Rhs: []ast.Expr{call(vsel("Case"), ch)}})
+					}
 				case *ast.AssignStmt: // case v[, ok] := <-ch:
 					ch := st.Rhs[0].(*ast.CallExpr).Fun.(*ast.SelectorExpr).X
 					pre = append(pre, &ast.AssignStmt{Lhs: []ast.Expr{cv}, Tok: token.DEFINE, Rhs: []ast.Expr{call(vsel("Case"), ch)}})
